@@ -63,7 +63,7 @@ def run(rep, idx, tier):
     frep = Report("C19", tier)
     rules(frep, fx, fixture=True)
     fired = {o.rule for o in frep.by_status("violated")}
-    for r in ("C19.1", "C19.2", "C19.3", "C19.4", "C19.6", "C19.8", "C19.9", "C19.10", "C19.11", "C19.22", "C19.23"):
+    for r in ("C19.1", "C19.2", "C19.3", "C19.4", "C19.6", "C19.8", "C19.9", "C19.10", "C19.11", "C19.22", "C19.23", "C19.24"):
         if r in fired:
             rep.ok(r, "sa/fixtures/c19", "positive fixture is flagged", "the rule fires on the committed bad example", nontrivial=False)
         else:
@@ -130,6 +130,8 @@ def rules(rep, idx, fixture):
     _glue22.textual_memo_keys(rep, "C19.22", idx)
     rep.require("C19.23", 1) if not fixture else None
     _glue22.ports_not_rebound(rep, "C19.23", idx)
+    rep.require("C19.24", 1) if not fixture else None
+    _glue22.setter_bypass(rep, "C19.24", idx)
     if not fixture:
         from . import glue as _glue
         _glue.param_refusals(rep, "C19.12", idx)
